@@ -16,7 +16,7 @@ package checks
 //   lookalike-key-p2  own claims whose CBOR keys start with the digits of the
 //                     profile keys (2650, -750001), declared around the
 //                     embedded claims
-//   wide-p2           a dozen own claims: a full token is a map of 16..22 entries
+//   wide-p2           eighteen own claims: tokens are maps of 7..28 entries (around the 23/24 head boundary)
 //
 // Each style knows how to realise a model value, what its CBOR must look like
 // on the wire (read independently), and how to read its own claims back.
@@ -129,8 +129,9 @@ func (regionP2Profile) GetClaims() psatoken.IClaims {
 	}}
 }
 
-// ---- wide-p2: a dozen own claims, so that a full token is a map of 16 to 22
-// entries (a CBOR map head of the 0xb0.. range instead of 0xa0..) ----
+// ---- wide-p2: eighteen own claims, so that tokens are maps of 7 to 28
+// entries (CBOR map heads of the 0xb0.. range and, from 24 entries on, with a
+// separate length byte) ----
 
 const WideP2Name = "http://example.com/verif/wide-on-p2"
 
@@ -148,6 +149,12 @@ type WideP2Claims struct {
 	W9  *int64 `cbor:"-75919,keyasint,omitempty" json:"w9,omitempty"`
 	W10 *int64 `cbor:"-75920,keyasint,omitempty" json:"w10,omitempty"`
 	W11 *int64 `cbor:"-75921,keyasint,omitempty" json:"w11,omitempty"`
+	W12 *int64 `cbor:"-75922,keyasint,omitempty" json:"w12,omitempty"`
+	W13 *int64 `cbor:"-75923,keyasint,omitempty" json:"w13,omitempty"`
+	W14 *int64 `cbor:"-75924,keyasint,omitempty" json:"w14,omitempty"`
+	W15 *int64 `cbor:"-75925,keyasint,omitempty" json:"w15,omitempty"`
+	W16 *int64 `cbor:"-75926,keyasint,omitempty" json:"w16,omitempty"`
+	W17 *int64 `cbor:"-75927,keyasint,omitempty" json:"w17,omitempty"`
 }
 
 func (o WideP2Claims) MarshalCBOR() ([]byte, error) { return encoding.SerializeStructToCBOR(hem, &o) }
@@ -196,7 +203,7 @@ var extStyles = []extStyle{
 	{"shadow-p2", P2, ShadowP2Name, shadowP2Profile{}, []int64{-75101}, []string{"vendor-boot-seed"}, true, true},
 	{"nested-p2", P2, NestedP2Name, nestedP2Profile{}, []int64{-75100, -75102}, []string{"timestamp", "serial"}, true, true},
 	{"lookalike-key-p2", P2, RegionP2Name, regionP2Profile{}, []int64{2650, -750001}, []string{"region", "flags"}, true, true},
-	{"wide-p2", P2, WideP2Name, wideP2Profile{}, []int64{-75910, -75911, -75912, -75913, -75914, -75915, -75916, -75917, -75918, -75919, -75920, -75921}, []string{"w0", "w1", "w2", "w3", "w4", "w5", "w6", "w7", "w8", "w9", "w10", "w11"}, true, true},
+	{"wide-p2", P2, WideP2Name, wideP2Profile{}, []int64{-75910, -75911, -75912, -75913, -75914, -75915, -75916, -75917, -75918, -75919, -75920, -75921, -75922, -75923, -75924, -75925, -75926, -75927}, []string{"w0", "w1", "w2", "w3", "w4", "w5", "w6", "w7", "w8", "w9", "w10", "w11", "w12", "w13", "w14", "w15", "w16", "w17"}, true, true},
 }
 
 func extStyleByLabel(l string) extStyle {
@@ -266,7 +273,7 @@ func extOwnPtrs(c psatoken.IClaims) []**int64 {
 	case *RegionP2Claims:
 		return []**int64{&e.Region, &e.Flags}
 	case *WideP2Claims:
-		return []**int64{&e.W0, &e.W1, &e.W2, &e.W3, &e.W4, &e.W5, &e.W6, &e.W7, &e.W8, &e.W9, &e.W10, &e.W11}
+		return []**int64{&e.W0, &e.W1, &e.W2, &e.W3, &e.W4, &e.W5, &e.W6, &e.W7, &e.W8, &e.W9, &e.W10, &e.W11, &e.W12, &e.W13, &e.W14, &e.W15, &e.W16, &e.W17}
 	}
 	return nil
 }
